@@ -252,6 +252,9 @@ def variantName : Val → String
   | .enm k _ => (["A", "B", "C"][k]?).getD s!"V{k}"
   | _ => "?"
 
+/-- record R { a: i32, b: i32 } -/
+def fieldName (i : Nat) : String := (["a", "b", "c", "d"][i]?).getD s!"f{i}"
+
 def opName : BinOp → String
   | .add => "Add" | .sub => "Sub" | .mul => "Mul" | .eq => "Eq" | .ne => "Ne"
   | .lt => "Lt" | .le => "Le" | .gt => "Gt" | .ge => "Ge"
@@ -276,6 +279,7 @@ def showValue : Value → String
   | .callRt f args => s!"callrt {hostName f} " ++ " ".intercalate (args.map showVar)
   | .disc x => "disc " ++ showVar x
   | .cloneProj x i => s!"clone {showVar x}.Some#{i}"      -- only `e?` reads a variant field so far
+  | .cloneField x i => s!"clone {showVar x}.{fieldName i}"
 
 /-- CFG under construction: finished/open blocks (instructions reversed) and the current block. -/
 structure Cfg where
@@ -297,10 +301,12 @@ partial def emitStm (g : Cfg) : Stm → Cfg
   | .ret x => g.push s!"r {showVar x}"
   | .setDisc x blank =>
     let g := { g with variants := (showVar x, variantName blank) :: g.variants }
-    g.push s!"d {showVar x} {variantName blank}"
+    -- the empty record a record temporary starts from is the model's own (no MIR instruction)
+    if variantName blank == "?" then g else g.push s!"d {showVar x} {variantName blank}"
   | .assignField x i v =>
     let vn := ((g.variants.find? (·.1 == showVar x)).map (·.2)).getD "?"
-    g.push s!"a {showVar x}.{vn}#{i} = {showValue v}"
+    if vn == "?" then g.push s!"a {showVar x}.{fieldName i} = {showValue v}"
+    else g.push s!"a {showVar x}.{vn}#{i} = {showValue v}"
   | .iteD x k thn els =>
     -- `switch x [k => then] else default`; an empty branch is the continuation itself
     let (g, lthen) := if thn.isEmpty then (g, 0) else g.newBlock
